@@ -50,11 +50,11 @@ func genBoards(seed int64, usable []int) boardsInput {
 		d, s := make([]int, n), make([]int, n)
 		for i := range d {
 			d[i], s[i] = plain[r.Intn(len(plain))], r.Intn(6)
-			if r.Intn(100) < 4 {
+			if r.Intn(100) < 4 && len(erefs) > 0 {
 				d[i] = erefs[r.Intn(len(erefs))] // a reference the board may or may not be able to resolve
 			}
 		}
-		if r.Intn(100) < 30 {
+		if r.Intn(100) < 30 && len(erefs) > 0 {
 			// a connection a -> b followed (not necessarily at once) by a reference to its bundle
 			d, s = append(d, 22+r.Intn(2)), append(s, r.Intn(6))
 			d, s = append(d, []int{31, 33}[r.Intn(2)]), append(s, 0)
